@@ -62,6 +62,9 @@ enum Step {
     Send,
     /// OTAA join from the joined state; the accept carries no CFList (or the given one)
     Rejoin(Option<[u8; 16]>),
+    /// an OTAA join attempt nobody answers, after which the application activates the device by
+    /// personalisation (a new session; whatever mask the channel plan holds is the one in force)
+    FailedJoinThenAbp,
 }
 
 fn gen_linkadr(reg: Reg, rng: &mut Prng) -> Vec<u8> {
@@ -144,6 +147,10 @@ fn gen_history(reg: Reg, rng: &mut Prng) -> Vec<Step> {
         return v;
     }
     for _ in 0..n {
+        if rng.chance(1, 14) {
+            v.push(Step::FailedJoinThenAbp);
+            continue;
+        }
         let s = match rng.below(11) {
             10 => {
                 let cf = if rng.chance(1, 2) {
@@ -448,6 +455,30 @@ fn case<const PW: u8, const G: i8>(g: &str, reg: Reg, front: Front, rng: &mut Pr
                             let s = link.dev.snapshot();
                             txns.push((s, link.txn(&[4], 1, false, &Script::silent())));
                         }
+                    }
+                }
+                Step::FailedJoinThenAbp => {
+                    let s = link.dev.snapshot();
+                    let ev0 = link.dev.ev_len();
+                    let resp = link.dev.transact(Action::Join, &Script::silent());
+                    for e in link.dev.evs_since(ev0) {
+                        judge_tx::<PW, G>(&j, &s, &e, true, front, &hist_s, col);
+                    }
+                    if let Resp::Panic(m, l) = &resp {
+                        report_panic(reg, front, "failed-join", m, l, &hist_s, col);
+                        return;
+                    }
+                    let net = Net { nwk: [0x42; 16], app: [0x24; 16], addr: 0x2601_4321 };
+                    link.dev.join_abp(net.nwk, net.app, net.addr);
+                    link.net = net;
+                    link.fdown = 0;
+                    link.up_min = 0;
+                    j.cmd_eirp = None;
+                    pending_linkadr = None;
+                    col.event("personalised_after_failed_join");
+                    for _ in 0..3 {
+                        let s = link.dev.snapshot();
+                        txns.push((s, link.txn(&[5], 1, false, &Script::silent())));
                     }
                 }
                 Step::Silent(n) => {
